@@ -28,6 +28,7 @@ F_LIKE = "C20-like-on-key-panics"
 F_NULL = "C20-null-key-sort-order"
 F_VERT = "C20-vertical-filter-uncovered-column"
 F_NA = "C20-bloom-nonascii-token-boundary"
+F_LIT = "C20-literal-type-mismatch"
 STROPS = ("match", "ipinrange", "like", "matchop")
 OPS = {"=": "Ceq", "!=": "Cne", "<": "Clt", "<=": "Cle", ">": "Cgt", ">=": "Cge"}
 
@@ -57,6 +58,15 @@ def cond_coq(c, counter, strmode="true"):
         return "(CNonKey %s)" % nat(counter[0])
     if c["op"] in ("match", "ipinrange"):
         return "(CAtom %s Ceq %s)" % (nat(c["col"]), z(c["enc"]))
+    if c.get("litty"):
+        # a numeric literal of another type than the key column's. strmode "litcur": today's genRPNElementByVal stores the literal's
+        # bits as a value of the column's type (enccur; None = NaN, rendered as a value above every key); otherwise (repaired,
+        # fix6.patch): the literal converted exactly when it is a value of the column's type, else an AlwaysTrue element
+        if strmode == "litcur":
+            return "(CAtom %s %s %s)" % (nat(c["col"]), OPS[c["op"]], z(c["enccur"] if c.get("enccur") is not None else 2 ** 62))
+        if c.get("enc") is None:
+            counter[0] += 1
+            return "(CNonKey %s)" % nat(counter[0])
     return "(CAtom %s %s %s)" % (nat(c["col"]), OPS[c["op"]], z(c["enc"]))
 
 
@@ -486,6 +496,89 @@ def strop_stream(ck, scases, vi):
     return verd, broken, reading
 
 
+def lit_stream(ck, lcases, vi):
+    """numeric literals of another type than the key column's (float key = integer literal, integer key < number literal):
+    direct oracle + signature of C20-literal-type-mismatch + detection of the reading the tree implements."""
+    verd = {"known_littype": 0, "known_null_lit": 0, "violation": 0}
+    if not lcases:
+        return verd, [], None
+    bad_ids = set(i for i, t in enumerate(lcases) if t["oracle"])
+    res_rep = eval_model(ck, lcases, bad_ids, "lr", "true")
+    res_cur = eval_model(ck, lcases, bad_ids, "lc", "litcur")
+    if res_rep is None or res_cur is None:
+        return verd, [], None
+
+    def ent(res, i):
+        e = res.get(i)
+        return None if e is None else (e[0] if len(e) == 1 else e[vi])
+    for i in sorted(bad_ids):
+        t = lcases[i]
+        ec, er = ent(res_cur, i), ent(res_rep, i)
+        nf = t["nfrag"]
+        probes = [[f, f + 1] for f in range(nf)] + [list(p) for p in t["in"]["probes"]]
+        bad_probes = [j for j, p in enumerate(probes) if j < len(t["maybe"] or []) and t["maybe"][j] == 0 and any(t["match"][p[0]:p[1]])]
+        covered = lambda f: any(a <= f < b for a, b in t["ranges"])
+        bad_frags = [f for f in range(nf) if t["match"][f] and not covered(f)] if not t["scanerr"] else []
+        panicked = (t["scanerr"] or "").startswith("panic") or -2 in (t["maybe"] or [])
+        def keeps(e):
+            return e is not None and all(j < len(e[2]) and e[2][j] for j in bad_probes) and all(f < len(e[1]) and e[1][f] for f in bad_frags)
+        e8c, e8r = res_cur.get(i), res_rep.get(i)
+        full = e8c is not None and e8r is not None and len(e8c) == 8 and len(e8r) == 8
+        nullish = t["in"].get("writersort") and not reader_sorted(t) and any(v is None for row in t["keys"] for v in row[:max(used_keys(t), 1)])
+        MSG_LIT = "a fragment with a matching row is pruned: a numeric literal of another type than the key column's is stored bit-for-bit as a value of the column's type"
+        MSG_NULL = "a fragment with a matching row is pruned: null key values are sorted first by the writer but read as +infinity by the index reader"
+        done = False
+        if not panicked and (bad_probes or bad_frags):
+            if ec is not None and ec[0] == 0:
+                # the implementation behaves like the model that stores the literal's bits (null index cell = +inf)
+                if keeps(er):
+                    # every failing spot is kept / true once the literal is converted (or the predicate left unbounded)
+                    if ck.match_finding(F_LIT):
+                        ck.known_finding(F_LIT, MSG_LIT)
+                        verd["known_littype"] += 1
+                        done = True
+                elif full and nullish and keeps(e8c[4 + vi % 4]):
+                    # the literal is not involved: the null order alone explains it
+                    if ck.match_finding(F_NULL):
+                        ck.known_finding(F_NULL, MSG_NULL)
+                        verd["known_null_lit"] += 1
+                        done = True
+                elif full and nullish and keeps(e8r[4 + vi % 4]):
+                    # both defects are needed to explain the case
+                    if ck.match_finding(F_LIT) and ck.match_finding(F_NULL):
+                        ck.known_finding(F_LIT, MSG_LIT + " (together with the null order of the index)")
+                        ck.known_finding(F_NULL, MSG_NULL)
+                        verd["known_littype"] += 1
+                        done = True
+            if not done and er is not None and er[0] == 0 and full and nullish and keeps(e8r[4 + vi % 4]):
+                # the implementation converts the literal; the null order alone explains the case
+                if ck.match_finding(F_NULL):
+                    ck.known_finding(F_NULL, MSG_NULL)
+                    verd["known_null_lit"] += 1
+                    done = True
+        if done:
+            continue
+        verd["violation"] += 1
+        if verd["violation"] <= 3:
+            ck.violation({"kind": "direct-oracle", "what": t["oracle"][:4], "in": t["in"], "case": t["id"], "stream": "litmix",
+                          "ranges": t["ranges"], "match": t["match"], "scanerr": t["scanerr"]})
+    mis_rep = [i for i in range(len(lcases)) if (ent(res_rep, i) or [0])[0]]
+    mis_cur = [i for i in range(len(lcases)) if (ent(res_cur, i) or [0])[0]]
+    broken = []
+    if not mis_rep:
+        reading = "repaired"
+    elif not mis_cur:
+        reading = "current"
+    else:
+        reading = None
+        # null-order effects are the same under both readings; only report when neither reading fits a case
+        i = [k for k in mis_rep if k in set(mis_cur)]
+        k = i[0] if i else mis_rep[0]
+        broken.append(("correspondence C20: comparisons of a key column with a numeric literal of another type match neither the bit-for-bit "
+                       "reading nor the converted reading (case id %d)" % lcases[k]["id"], lcases[k]))
+    return verd, broken, reading
+
+
 def reader_sorted(t):
     """the key rows (first used columns) are in the order in which the index reader interprets them: lexicographic, nulls greatest"""
     u = max(used_keys(t), 1)
@@ -804,8 +897,9 @@ def main(ck):
         ck.cov["evaluations"] = len(bcases)
         return
     scases = [t for t in cases if t["in"].get("tag") == "strop"]
+    lcases = [t for t in cases if t["in"].get("tag") == "litmix"]
     allcases = cases
-    cases = [t for t in cases if t["in"].get("tag") != "strop"]
+    cases = [t for t in cases if t["in"].get("tag") not in ("strop", "litmix")]
     r = classify(ck, cases, "c")
     if r is None:
         return
@@ -813,6 +907,12 @@ def main(ck):
     sverd, sbroken, sreading = strop_stream(ck, scases, vi)
     r["broken"] += sbroken
     r["verdicts"].update(sverd)
+    lverd, lbroken, lreading = lit_stream(ck, lcases, vi)
+    r["broken"] += lbroken
+    r["verdicts"].update(lverd)
+    ck.cov["numeric_literal_of_another_type"] = {"evaluations": len(lcases), "verdicts": lverd, "reading_detected": lreading}
+    if ck.match_finding(F_LIT) and lcases and lverd["known_littype"] == 0:
+        ck.notes.append("open finding %s did not reproduce in this run (stale?)" % F_LIT)
     ck.cov["string_operators_on_key_columns"] = {"evaluations": len(scases), "verdicts": sverd, "reading_detected": sreading}
     for fid, key in ((F_MATCHEQ, "known_matcheq"), (F_LIKE, "known_like")):
         if ck.match_finding(fid) and scases and sverd[key] == 0:
@@ -830,9 +930,9 @@ def main(ck):
     if r["broken"] and r["verdicts"]["violation"] == 0:
         # a disagreement without a failing input: search a fresh, larger stream with the direct oracle before giving up
         rc, cs2, out = run_harness(ck, binp, ["gen", str(max(3 * n, 1500))], env={"VERIF_SEED": str(ck.seed + 1)})
-        bad = [t for t in cs2 if t["oracle"] and t["in"].get("tag") != "strop"]
+        bad = [t for t in cs2 if t["oracle"] and t["in"].get("tag") not in ("strop", "litmix")]
         if bad:
-            classify(ck, [t for t in cs2 if t["in"].get("tag") != "strop"], "x")   # reports failing inputs outside the signatures
+            classify(ck, [t for t in cs2 if t["in"].get("tag") not in ("strop", "litmix")], "x")   # reports failing inputs outside the signatures
         for msg, i in r["broken"][:3]:
             ck.broken.append(msg)
         i = r["broken"][0][1]
